@@ -45,12 +45,21 @@ class Lock:
         fcntl.flock(self.f, fcntl.LOCK_UN)
         self.f.close()
 
-def prune_cache(keep=6):
-    """keep the cache small: remove the oldest build directories"""
+def prune_cache(keep=10, min_age_s=3600):
+    """keep the cache small: remove build directories that are old AND beyond the newest `keep`
+    (never a directory that may still be in use by a concurrent check)"""
     try:
+        now = time.time()
         ds = [os.path.join(CACHE, d) for d in os.listdir(CACHE) if os.path.isdir(os.path.join(CACHE, d))]
         ds.sort(key=lambda d: os.path.getmtime(d))
-        for d in ds[:-keep]: shutil.rmtree(d, ignore_errors=True)
+        for d in ds[:-keep]:
+            if now - os.path.getmtime(d) > min_age_s: shutil.rmtree(d, ignore_errors=True)
+        for f in os.listdir(CACHE):
+            if f.endswith('.lock') and not os.path.isdir(os.path.join(CACHE, f[:-5])) and f[:2] in ('h_', 'c_', 'g_'):
+                p = os.path.join(CACHE, f)
+                if now - os.path.getmtime(p) > min_age_s:
+                    try: os.remove(p)
+                    except OSError: pass
     except OSError:
         pass
 
